@@ -134,7 +134,7 @@ EXPORT errno_t _strcasestr_s_chk(char *dest, rsize_t dmax, const char *src,
         len = slen;
         dlen = dmax;
 
-        while (dest[i] && dlen) {
+        while (dlen && dest[i]) {
 
             /* not a match, not a substring */
             if (toupper((unsigned char)dest[i]) !=
@@ -147,7 +147,7 @@ EXPORT errno_t _strcasestr_s_chk(char *dest, rsize_t dmax, const char *src,
             len--;
             dlen--;
 
-            if (src[i] == '\0' || !len) {
+            if (!len || src[i] == '\0') {
                 *substring = dest;
                 return (EOK);
             }
